@@ -12,6 +12,6 @@ Extraction "model.ml"
   SafetyNames.valid_instance_name SafetyNames.split_sub_domain SafetyNames.escape_instance_name
   SafetyNames.normalize_hostname SafetyNames.si_names SafetyNames.api_browse
   SafetyNames.api_resolve_hostname SafetyNames.api_register SafetyNames.name_change
-  SafetyNames.hostname_change SafetyNames.present SafetyNames.encodable SafetyNames.chk_C15
+  SafetyNames.hostname_change SafetyNames.read_name_fit SafetyNames.present SafetyNames.encodable SafetyNames.chk_C15
   SafetyQueue.run SafetyQueue.chk_C14 SafetyQueue.prepare ParamsSafety.len_max_refused
   N.eqb N.add N.mul N.land N.div N.modulo.
